@@ -330,7 +330,9 @@ def check(rep, F, tier, replay=None):
                     parsers.append("%s%s" % (t_, fn_["bbs"][c.bb]["t"][2].get("ga") or ""))
         parsers = sorted(set(parsers))
         slicers = sorted(t.rsplit("::", 1)[-1] for t in tos_ if t.rsplit("::", 1)[-1] in ("strip_prefix", "strip_suffix", "trim", "trim_start", "trim_start_matches", "trim_matches", "split_at", "starts_with", "chars", "bytes", "as_bytes", "replace", "split", "find"))
-        if len(parsers) != 1 or "i128" not in parsers[0] or slicers:
+        if len(parsers) == 1 and "i128" not in parsers[0] and not slicers:
+            rep.lost("Int::from_str parses the whole string with %s instead of i128 (same shape, other parser): re-anchor INT-parse and re-read its grammar" % parsers[0])
+        elif len(parsers) != 1 or slicers:
             rep.violation("INT-parse", "Int::from_str|%s|%s" % (",".join(H.short(p_) for p_ in parsers), ",".join(slicers)), "Int::from_str parses with %s%s: a second grammar is stacked on the std parser's own sign handling, so strings such as \"-+5\" are accepted as integers - a JSON metadata key changes from text to a number (and can collide with another key)" % ([H.short(p_) for p_ in parsers], " after handling the sign itself (%s)" % ", ".join(slicers) if slicers else ""), {})
     return rep.finish(
         EXPLANATION,
